@@ -65,6 +65,8 @@ inductive Unit where
   | autoRows (c : RowsChange)             -- autocommitted row change
   | stmtDML (s : StmtChange)              -- statement-format DML outside a transaction
   | rotate (file : Bytes)                 -- ROTATE to `file`; the next file starts with its FDE
+  | restart (file : Bytes)                -- the master restarted: the file ends with a STOP event (no ROTATE event);
+                                          -- the dump thread announces the next file with an artificial ROTATE only
   | gtid (sid : Bytes) (gno : Nat) | anonGtid | prevGtids (block : Bytes) | heartbeat
   | unknownEvent (typ : Nat) (body : Bytes)
   | unknownStmt (s : StmtChange)
@@ -77,6 +79,7 @@ inductive Tag where
   | none
   | commit (cs : List Change)       -- a commit point delivering these changes
   | rotateTo (file : Bytes)
+  | stopThenRotateTo (file : Bytes) -- STOP event closing a file; the next file is announced by an artificial rotate
   | fileHead                        -- FDE at the head of a file
   deriving Repr, DecidableEq, BEq, Inhabited
 
@@ -122,6 +125,7 @@ def unitEvs (cfg : Cfg) : Unit → List AEv
   | .autoRows c => markStart ((if c.announce then [tableMapEv cfg c] else []) ++ [rowsEv cfg c (.commit [.rows c])])
   | .stmtDML s => markStart [stmtEv s (.commit [.stmt s])]
   | .rotate f => markStart [⟨4, rotateBody 4 f, 0, .rotateTo f, false⟩]
+  | .restart f => markStart [⟨3, [], 0, .stopThenRotateTo f, false⟩]
   | .gtid sid gno => markStart [⟨33, gtidBody 0 sid gno [], 0, .none, false⟩]
   | .anonGtid => markStart [⟨34, gtidBody 0 (List.replicate 16 0) 0 [], 0, .none, false⟩]
   | .prevGtids b => markStart [⟨35, b, 0, .none, false⟩]
@@ -151,10 +155,18 @@ def layoutAux (cfg : Cfg) : List AEv → Bytes → Nat → List Laid
   | e :: es, file, off =>
     let (b, next) := event (crcOf cfg off) { ts := e.ts } e.typ off e.body
     let here : Laid := ⟨file, off, next, b, e.ts, e.tag, e.unitStart⟩
+    -- when the dump thread moves on to the next file it first sends an artificial ROTATE (timestamp 0,
+    -- next_position 0, flag 0x20; with a checksum when checksums are on, as rpl_binlog_sender.cc does) naming it,
+    -- then that file's FORMAT_DESCRIPTION event
+    let fakeRot (f : Bytes) : Laid :=
+      ⟨file, next, next, (event (crcOf cfg next) { flags := 0x20 } 4 0 (rotateBody 4 f) (some 0)).1, 0, .rotateTo f, false⟩
     match e.tag with
     | .rotateTo f =>
       let (fb, fnext) := fdeEvent cfg 4 none
-      here :: ⟨f, 4, fnext, fb, 0, .fileHead, false⟩ :: layoutAux cfg es f fnext
+      here :: fakeRot f :: ⟨f, 4, fnext, fb, 0, .fileHead, false⟩ :: layoutAux cfg es f fnext
+    | .stopThenRotateTo f =>
+      let (fb, fnext) := fdeEvent cfg 4 none
+      { here with tag := .none } :: fakeRot f :: ⟨f, 4, fnext, fb, 0, .fileHead, false⟩ :: layoutAux cfg es f fnext
     | _ => here :: layoutAux cfg es file next
 
 def firstFile : Bytes := asc "bin.000001"
@@ -176,7 +188,7 @@ def fromPos (l : List Laid) (p : Pos) : List Laid :=
     (artificial when p is past the head), then the events from p on -/
 def serve (cfg : Cfg) (h : History) (p : Pos) : List Bytes :=
   let l := layout cfg h
-  let fake := (event none { flags := 0x20 } 4 0 (rotateBody p.offset p.file) (some 0)).1
+  let fake := (event (crcOf cfg 0) { flags := 0x20 } 4 0 (rotateBody p.offset p.file) (some 0)).1
   let rest := fromPos l p
   let head : List Bytes := match rest with
     | e :: _ => if e.tag == .fileHead then [] else [(fdeEvent cfg 4 (some 0)).1]
